@@ -26,7 +26,21 @@ fn main() {
         let n = 6 + ctx.rng.below(if quick { 14 } else { 30 }) as usize;
         progs.push((format!("g{i}"), gen_program(seed, n)));
     }
+    // mover programs: every barriered store path, validated under slow marking from many start points
+    let movers: Vec<(String, String)> = (0..4).map(|k| (format!("mover{k}"), mover_program(k, 5))).collect();
+    for (name, src) in movers.iter() {
+        let stride = if quick { 4 } else { 1 };
+        let mut st = 0u64;
+        while st < 160 {
+            jobs.push(Job { name: name.clone(), src: src.clone(), sched: Sched::From { start: st, k: 1 }, validate: true });
+            st += stride;
+        }
+    }
+    progs.extend(movers.iter().cloned());
     for (pi, (name, src)) in progs.iter().enumerate() {
+        if name.starts_with("mover") {
+            continue;
+        }
         // validated runs: a few schedules per program (every transition checked against the model)
         let mut scheds: Vec<Sched> = vec![];
         let s0 = ctx.rng.below(300);
